@@ -518,3 +518,5 @@ def run(chk, tier):
     chk.guard('C08.d', lambda: rule_adjust(chk, prog, tier))
     chk.guard('C08.e', lambda: rule_valist(chk, prog, tier))
     chk.guard('C05.a', lambda: c05.rule_promote(chk, prog, tier))      # default argument promotions are the integer promotions (incl. bit-fields)
+    from props import c06
+    chk.guard('C06.a', lambda: c06.rule_layout(chk, prog, tier))       # the member offsets / storage units the emitted type description is built from (addmember)
